@@ -77,6 +77,9 @@ def gen_case(seed, i):
         dargs = ["--priority", rng.choice(["newest", "oldest", "most-nested", "bottom", "most-recently-modified"])]
     elif r_ < 0.3:
         dargs = ["-n", "2"]
+    elif r_ < 0.45:
+        # options given on the dedupe side that restate what the report header would supply anyway
+        dargs = rng.choice([["-n", "1"], ["--rf-over", "1"], ["--rf-over=1", "--priority", "top"]])
     # the length check of the dedupe commands is off after `group --transform` (automatically) or with
     # --no-check-size: then only the modification time protects a changed file; empty files (-s 0) too
     r_ = rng.random()
